@@ -15,12 +15,22 @@
    * between commands the ledger is exactly the ownership of the write buffer: no read buffer, no set buffer and no
      token is held (`C12_idle_ledger`);
    * after the flush every counter is zero and all tokens are free (`C12_quiescence`).
-  Partial: single connection (the schedule quantifier — several connections interleaving inside a command — is
-  not modelled; the ledger operations are atomic adds, and each connection's contribution is the one proved here);
+  SEVERAL CONNECTIONS (GoBeans/Model/LedgerConc.lean): every command is the ordered list of ATOMIC micro-operations
+  the code performs (token take `<-rl.Chan`, one atomic add on one of the eight counters, hand-over of a buffer to the
+  write buffer, I/O, token return), derived per command kind and outcome and PROVED to fold to exactly what
+  `Proto.serveOnce` does to the ledger (`C12_micro_ops_are_serve`); any number of connections and flusher threads, an
+  arbitrary scheduler, a token take enabled only while a token is free.  For every schedule: the ledger is the idle
+  ledger plus what each in-flight command and each flusher currently holds plus what the write buffers own, and the
+  free tokens are maxReq minus the connections holding one, never negative (`C12_conc_invariant`); when every
+  connection is between commands or closed (also closed mid-body), flushers idle and buffers empty, every counter is
+  zero and every token free (`C12_conc_quiescence`); the limiter cannot deadlock and every schedule extends to a
+  fully served, flushed state (`C12_conc_no_deadlock`, `C12_conc_drain`).
+  Partial:
   values are not compressed in the model (a compressed value changes only the size carried by FlushData).
   The OOM refusal, malloc failure and connection write errors are not modelled.
 -/
 import GoBeans.Lemmas.Proto
+import GoBeans.Lemmas.LedgerConc
 open Proto
 
 /-- the server at start: nothing stored, nothing buffered, all tokens free -/
@@ -63,6 +73,41 @@ theorem C12_idle_ledger (cfg : Cfg) (fuel : Nat) (inp : Bytes) :
 theorem C12_quiescence (cfg : Cfg) (fuel : Nat) (inp : Bytes) :
     (flush (serve cfg fuel (C12_init cfg) inp).1).led = zero cfg :=
   (flush_zero cfg _ (serve_quiet cfg fuel (C12_init cfg) inp (C12_init_quiet cfg))).1
+
+/-! several connections, any schedule -/
+
+/-- the micro-operations of a served command fold to exactly what `serveOnce` does to ledger and write buffer -/
+theorem C12_micro_ops_are_serve (cfg : Cfg) (fuel : Nat) (st : Proto.St) (inp : Bytes) :
+    LedgerConc.applyOps ((LedgerConc.outcomes cfg fuel st inp).flatMap LedgerConc.microOps) st.led = (Proto.serve cfg fuel st inp).1.led
+    ∧ st.pend ++ LedgerConc.pushes ((LedgerConc.outcomes cfg fuel st inp).flatMap LedgerConc.microOps) = (Proto.serve cfg fuel st inp).1.pend :=
+  LedgerConc.serve_microOps cfg fuel st inp
+
+theorem C12_conc_invariant (cfg : Cfg) (conns : List (List LedgerConc.Outcome)) (nf : Nat) (sched : List LedgerConc.Action) :
+    let s := LedgerConc.run (LedgerConc.system cfg conns nf) sched
+    s.led = zero cfg + LedgerConc.vsum (s.conns.map LedgerConc.Conn.share) + LedgerConc.vsum (s.flushers.map LedgerConc.Flusher.held)
+        + LedgerConc.ownSum s.pend
+    ∧ s.led.tokens = (cfg.maxReq : Int) - (s.conns.countP (fun c => LedgerConc.holding c.done))
+    ∧ 0 ≤ s.led.tokens ∧ s.led.tokens ≤ cfg.maxReq :=
+  LedgerConc.C12_conc_invariant cfg conns nf sched
+
+/-- the C12 statement for any number of concurrent connections and every schedule -/
+theorem C12_conc_quiescence (cfg : Cfg) (conns : List (List LedgerConc.Outcome)) (nf : Nat) (sched : List LedgerConc.Action)
+    (hc : ∀ os ∈ conns, ∀ o ∈ os, o.clean = true ∧ LedgerConc.RelOK o)
+    (hq : LedgerConc.quiescent (LedgerConc.run (LedgerConc.system cfg conns nf) sched) = true) :
+    (LedgerConc.run (LedgerConc.system cfg conns nf) sched).led = zero cfg :=
+  LedgerConc.C12_conc_quiescence cfg conns nf sched hc hq
+
+theorem C12_conc_no_deadlock (cfg : Cfg) (hm : 1 ≤ cfg.maxReq) (conns : List (List LedgerConc.Outcome)) (nf : Nat)
+    (sched : List LedgerConc.Action) (i : Nat)
+    (hb : LedgerConc.blocked (LedgerConc.run (LedgerConc.system cfg conns nf) sched) i = true) :
+    ∃ j c, j ≠ i ∧ (LedgerConc.run (LedgerConc.system cfg conns nf) sched).conns[j]? = some c ∧ LedgerConc.holding c.done = true
+      ∧ (LedgerConc.step (LedgerConc.run (LedgerConc.system cfg conns nf) sched) (.conn j)).isSome = true :=
+  LedgerConc.C12_conc_no_deadlock cfg hm conns nf sched i hb
+
+theorem C12_conc_drain (cfg : Cfg) (hm : 1 ≤ cfg.maxReq) (conns : List (List LedgerConc.Outcome)) (nf : Nat) (hnf : 1 ≤ nf)
+    (sched : List LedgerConc.Action) :
+    ∃ more, LedgerConc.finished (LedgerConc.run (LedgerConc.system cfg conns nf) (sched ++ more)) = true :=
+  LedgerConc.C12_conc_drain cfg hm conns nf hnf sched
 
 /-! Non-vacuity: a stream with a stored value above the C threshold, a hit, a malformed command, a body cut short.
     The ledger is not trivially zero in between (one buffer of 70 bytes is owned by the write buffer, in C). -/
